@@ -1,5 +1,6 @@
 """C17 — Queues and chains deliver each item exactly once, in order, and terminate."""
 import os
+import shutil
 
 from vlib import flow, lean, repo, stream
 from vlib.common import REPO, SCRATCH, VERIF, log, sha, run as run_cmd
@@ -25,8 +26,9 @@ MANIFEST = {
 REQUIRED = ["KV.C17.sem_accounting", "KV.C17.never_over_cap", "KV.C17.fifo_exactly_once",
             "KV.C17.per_pair_order", "KV.C17.no_deadlock", "KV.C17.terminates", "KV.C17.maximal_run_delivers"]
 
-HARNESS_EXTRA = [REPO + "/util/exception.cc", REPO + "/util/integer_to_string.cc",
-                 "-lboost_thread", "-lboost_system"]
+HARNESS_EXTRA = [REPO + "/util/" + f for f in (
+    "exception.cc", "integer_to_string.cc", "stream/chain.cc", "stream/multi_progress.cc", "stream/io.cc", "file.cc",
+    "mmap.cc", "ersatz_progress.cc", "scoped.cc", "parallel_read.cc", "spaces.cc")] + ["-lboost_thread", "-lboost_system"]
 
 
 # ---------------------------------------------------------------- case lines
@@ -288,6 +290,154 @@ def gen_free_case(rng, big):
     return cap, prods, quotas, rng.randrange(1, 1 << 30), rng.choice([0, 10, 30, 60])
 
 
+# ---------------------------------------------------------------- ThreadPool / Chain streams (operation granularity)
+def xform(j, c):
+    return c * 10 + j
+
+
+def finals_of(line):
+    _, status, finals = parse_trace(line)
+    return status, finals
+
+
+def oracle_pool(cap, workers, reqs, line):
+    if line.startswith("HARNESS-DIED"):
+        return "harness died: " + line
+    status, finals = finals_of(line)
+    if status != "ok":
+        return "ThreadPool run did not terminate (status %s): destructor / workers blocked" % status
+    allh = []
+    pos = {v: i for i, v in enumerate(reqs)}
+    for w in range(1, workers + 1):
+        h = finals.get(w, [])
+        last = -1
+        for v in h:
+            if v not in pos:
+                return "worker %d handled a request %d that was never submitted" % (w, v)
+            if pos[v] <= last:
+                return "worker %d handled requests out of submission order (or twice)" % w
+            last = pos[v]
+        allh += h
+    if sorted(allh) != sorted(reqs):
+        return "requests handled %s != requests submitted %s (not exactly once)" % (sorted(allh), sorted(reqs))
+    return None
+
+
+def oracle_chain(b, m, data, line):
+    if line.startswith("HARNESS-DIED"):
+        return "harness died (abort 'Chain ending without poison' or crash): " + line[:300]
+    status, finals = finals_of(line)
+    if status != "ok":
+        return "Chain::Wait did not return / a stage did not finish (status %s)" % status
+    expect = list(data)
+    for j in range(2, m + 1):
+        got = finals.get(j, [])
+        if got != expect:
+            return "stage %d saw %s, its predecessor produced %s" % (j, got, expect)
+        expect = [xform(j, c) for c in expect]
+    return None
+
+
+def op_batch(ctx, hexe, dexe, kind, cases, mkline, oracle):
+    """cases: tuples; mkline(case) -> op line; oracle(case, harness line) -> None | str"""
+    if not cases:
+        return False
+    lines = [mkline(c) for c in cases]
+    ho = run_harness(hexe, lines)
+    rc2, do, e2 = stream.run_lines(dexe, lines, timeout=900)
+    for i, c in enumerate(cases):
+        ctx.count((kind, lines[i]), nontrivial=True)
+        bad = oracle(c, ho[i])
+        if bad:
+            ctx.violation("%s: %s" % (kind, bad), {"stream": kind, "op": lines[i], "impl": ho[i][:3000],
+                                                   "model": do[i][:3000] if i < len(do) else None})
+            return True
+        if i >= len(do) or ho[i] != do[i]:
+            ctx.violation("%s: model and implementation disagree on a driven schedule" % kind,
+                          {"stream": kind, "op": lines[i], "impl": ho[i][:3000], "model": do[i][:3000] if i < len(do) else None},
+                          no_input=True)
+            return True
+    return False
+
+
+def enum_generic(dexe, opline):
+    rc, o, e = stream.run_lines(dexe, [opline], timeout=900)
+    if rc != 0 or not o or not o[-1].startswith("end "):
+        return None, "driver enumeration failed rc=%s %s" % (rc, e[-300:])
+    return [[int(x) for x in l.split(",")] if l else [] for l in o[:-1]], o[-1].split()[2]
+
+
+def pool_line(c):
+    cap, w, reqs, sched = c
+    return "pool %d %d %s %s" % (cap, w, fmt_list(reqs), fmt_list(sched))
+
+
+def chain_line(c):
+    b, m, data, sched = c
+    return "chain %d %d %s %s" % (b, m, fmt_list(data), fmt_list(sched))
+
+
+def pool_chain_streams(ctx, hexe, dexe, problems):
+    quick = ctx.tier == "quick"
+    rng = ctx.rng
+    found = False
+    # exhaustive (every maximal schedule of the operation-level model), small configurations
+    pool_exh = [(1, 1, [5], 100), (1, 2, [5, 6], 400), (2, 2, [5, 6], 300 if quick else 5000), (2, 1, [5, 6, 7], 300),
+                (1, 3, [5], 300 if quick else 20000)]
+    for cap, w, reqs, limit in pool_exh:
+        scheds, status = enum_generic(dexe, "enumpool %d %d %s %d" % (cap, w, fmt_list(reqs), limit))
+        if scheds is None:
+            problems.append(status)
+            return found
+        ctx.hist("pool.exhaustive", "cap%d.w%d.n%d:%s" % (cap, w, len(reqs), status), len(scheds))
+        found = op_batch(ctx, hexe, dexe, "pool", [(cap, w, reqs, sc) for sc in scheds], pool_line,
+                         lambda c, l: oracle_pool(c[0], c[1], c[2], l)) or found
+        if found:
+            return found
+    chain_exh = [(1, 1, [], 100), (1, 1, [11], 100), (2, 1, [11], 300), (1, 2, [11], 400),
+                 (2, 2, [11, 12], 300 if quick else 30000), (1, 3, [11, 12], 300 if quick else 30000)]
+    for b, m, data, limit in chain_exh:
+        scheds, status = enum_generic(dexe, "enumchain %d %d %s %d" % (b, m, fmt_list(data), limit))
+        if scheds is None:
+            problems.append(status)
+            return found
+        ctx.hist("chain.exhaustive", "b%d.m%d.n%d:%s" % (b, m, len(data), status), len(scheds))
+        found = op_batch(ctx, hexe, dexe, "chain", [(b, m, data, sc) for sc in scheds], chain_line,
+                         lambda c, l: oracle_chain(c[0], c[1], c[2], l)) or found
+        if found:
+            return found
+    # random
+    npool, nchain = (150, 150) if quick else (3000, 3000)
+    cases = []
+    for _ in range(npool):
+        w = rng.randrange(1, 5)
+        cap = rng.choice([1, 1, 2, 3, 8])
+        n = rng.choice([0, 1, 2, 5, rng.randrange(0, 30)])
+        reqs = [1000 + i for i in range(n)]
+        cases.append((cap, w, reqs, random_sched(rng, w + 1, rng.choice([0, 3 * (n + w), 8 * (n + w)]))))
+        ctx.hist("pool.random.workers", w)
+    for i in range(0, len(cases), 300):
+        found = op_batch(ctx, hexe, dexe, "pool", cases[i:i + 300], pool_line,
+                         lambda c, l: oracle_pool(c[0], c[1], c[2], l)) or found
+        if found:
+            return found
+    cases = []
+    for _ in range(nchain):
+        b = rng.randrange(1, 5)
+        m = rng.randrange(1, 5)
+        n = rng.choice([0, 1, 2, 3, 5, rng.randrange(0, 25)])
+        data = [rng.randrange(1, 90) for _ in range(n)]
+        cases.append((b, m, data, random_sched(rng, m + 2, rng.choice([0, 4 * (n + b) * (m + 1), 10 * (n + b) * (m + 1)]))))
+        ctx.hist("chain.random.blocks", b)
+        ctx.hist("chain.random.workers", m)
+    for i in range(0, len(cases), 300):
+        found = op_batch(ctx, hexe, dexe, "chain", cases[i:i + 300], chain_line,
+                         lambda c, l: oracle_chain(c[0], c[1], c[2], l)) or found
+        if found:
+            return found
+    return found
+
+
 # ---------------------------------------------------------------- the pcq stream
 def pcq_batch(ctx, hexe, dexe, cases, kind, hooks):
     """cases: list of (cap, prods, quotas, sched).  Returns True if a violation was reported."""
@@ -341,6 +491,18 @@ def run(ctx):
         problems.append(lg)
         flow.report_obligation_failures(ctx, problems, False)
         return
+    # the shared build cache may be pruned by concurrent checks of other trees: run from a private copy
+    priv = os.path.join(SCRATCH, "c17_run_%d" % os.getpid())
+    shutil.rmtree(priv, ignore_errors=True)
+    os.makedirs(priv)
+    try:
+        hexe = shutil.copy2(hexe, os.path.join(priv, "c17"))
+        _run(ctx, problems, hexe, priv)
+    finally:
+        shutil.rmtree(priv, ignore_errors=True)
+
+
+def _run(ctx, problems, hexe, priv):
     dexe = lean.driver_path("drv_C17")
     rc, o, e = stream.run_lines(hexe, ["hooks"])
     hooks = (rc == 0 and o and o[0].strip() == "hooks 1")
@@ -382,6 +544,9 @@ def run(ctx):
                 ctx.hist("pcq.random.cap", c[0])
                 ctx.hist("pcq.random.items", min(sum(len(p) for p in c[1]) // 10 * 10, 200))
             found = pcq_batch(ctx, hexe, dexe, cases, "rnd", hooks) or found
+    # 2b. ThreadPool and Chain, driven at operation granularity
+    if hooks and not found:
+        found = pool_chain_streams(ctx, hexe, dexe, problems) or found
     # 3. free-running perturbed runs (random yields/sleeps at the points), oracle only; also the only mode without hooks
     if not found:
         n_free = (300 if quick else 5000) if hooks else (1500 if quick else 20000)
@@ -396,6 +561,7 @@ def run(ctx):
         if not okt:
             problems.append(lgt)
         else:
+            texe = shutil.copy2(texe, os.path.join(priv, "c17_tsan"))
             cases = [gen_free_case(ctx.rng, True) for _ in range(60 if quick else 1500)]
             found = free_batch(ctx, texe, cases, "tsan", tsan=True) or found
     ctx.cov["rule"] = ("pcq: one case = (capacity, values per producer, Consume counts per consumer, schedule); distinct by op "
